@@ -181,6 +181,11 @@ def menu():
     # load kinds the BASIC input cannot mix, in every attach order, with the BASIC input requested
     for form in ('z-then-rlc', 'rlc-then-z', 'rlc+skin', 'trap+insulation', 'laplace-then-z', 'z+skin'):
         M.append(('BASIC-MIXED', form))
+    # load values in every given / zero / empty form, with each file writer requested
+    for w in ('cmdline', 'basic'):
+        for lv in ('rlc=0,6e-05,1e-10', 'rlc=5,0,1e-10', 'rlc=5,6e-05,0', 'rlc=0,0,1e-10', 'rlc=,6e-05,1e-10', 'rlc=5,,', 'trap=0,1e-6,5e-11', 'trap=2,1e-6,5e-11',
+                   'load=0', 'load=0j', 'load=5', 'laplace=0,2e-9/1', 'laplace=1/0,3e-6', 'skin-c=1e6', 'skin-r=1e-6,1', 'insul=0.01,2.3,1', 'insul=0.01,1'):
+            M.append(('WRITTEN', w + ':' + lv))
     M.append(('--trap-load+', '0,1e-6,1.1894e-9'))                     # loss-free trap (resonant near 4.6 MHz)
     M.append(('--bogus-option', '1'))
     return M
@@ -252,6 +257,14 @@ def apply_dev(argv, opt, val):
                  'laplace-then-z': ['--load=25+10j', '--laplace-load-a=1,2e-9', '--laplace-load-b=10,3e-6', '--attach-load=2,2', '--attach-load=1,1'],
                  'z+skin': ['--load=25+10j', '--attach-load=1,2', '--skin-effect-conductivity=1e6']}[val]
         return argv + extra + ['--output-basic-input=' + os.path.join(TMP, 'mixed.bas')]
+    if opt == 'WRITTEN':
+        w, lv = val.split(':', 1)
+        kind, v = lv.split('=', 1)
+        argv = [a for a in argv if not a.startswith(('--load', '--rlc', '--trap', '--laplace', '--attach-load', '--skin', '--insulation', '--output-'))]
+        extra = {'rlc': ['--rlc-load=' + v, '--attach-load=1,2'], 'trap': ['--trap-load=' + v, '--attach-load=1,2'], 'load': ['--load=' + v, '--attach-load=1,2'],
+                 'laplace': ['--laplace-load-a=' + v.split('/')[0], '--laplace-load-b=' + v.split('/')[-1], '--attach-load=1,2'],
+                 'skin-c': ['--skin-effect-conductivity=' + v], 'skin-r': ['--skin-effect-resistivity=' + v], 'insul': ['--insulation-load=' + v]}[kind]
+        return argv + extra + ['--output-%s=%s' % ('cmdline' if w == 'cmdline' else 'basic-input', os.path.join(TMP, 'written.txt'))]
     if opt == 'NO-GEOMETRY':
         out, skip = [], False
         for a in argv:
